@@ -2,15 +2,16 @@
 """tools/keep_seed.py SEEDDIR(/tmp/seed/out/Cxx) LETTER PROP[,PROP..] "needs: ..."  -> /verif/seeded/<Cxx>-<LETTER>/"""
 import json, os, shutil, subprocess, sys
 src, letter, props, needs = sys.argv[1], sys.argv[2], sys.argv[3], sys.argv[4]
+dest_letter = sys.argv[5] if len(sys.argv) > 5 else letter
 pid = os.path.basename(src.rstrip("/"))
 patch, demo = f"{src}/patch_{letter}.diff", f"{src}/demo_{letter}.py"
 r = subprocess.run(["/venv/bin/python", "/verif/tools/try_seed.py", patch, demo, props], capture_output=True, text=True)
 res = json.loads(r.stdout[r.stdout.index("{"):])
 ok = res.get("applies") and res.get("demo_pristine_rc") == 0 and res.get("demo_patched_rc") not in (0, None) \
     and res.get("suite", "").startswith("6 failed, 387 passed")
-dst = f"/verif/seeded/{pid}-{letter}"
+dst = f"/verif/seeded/{pid}-{dest_letter}"
 summary = {p: c["rc"] for p, c in res.get("checks", {}).items()}
-print(pid, letter, "CONFIRMED" if ok else "REJECTED", summary, "|", res.get("suite"), "| demo", res.get("demo_pristine_rc"), res.get("demo_patched_rc"))
+print(pid, dest_letter, "CONFIRMED" if ok else "REJECTED", summary, "|", res.get("suite"), "| demo", res.get("demo_pristine_rc"), res.get("demo_patched_rc"))
 if not ok:
     print(json.dumps(res, indent=1)[:1500])
     sys.exit(1)
